@@ -9,6 +9,7 @@ import (
 	"math/rand"
 	"strings"
 	"sync"
+	"time"
 
 	netty "github.com/go-netty/go-netty"
 	"github.com/go-netty/go-netty/codec/frame"
@@ -289,3 +290,43 @@ func (r *EncRig) Write(msg interface{}) (em []Emission, exc []error, werr error)
 
 // Close disposes of the channel.
 func (r *EncRig) Close() { r.rig.Dispose() }
+
+// WireRig is a real channel whose pipeline is [encoder under test, exception recorder]: what the encoder emits travels
+// through the head handler and the channel's write path to the recording transport. On a queued channel the background
+// sender is held back until Finish, so everything the encoder handed over sits in the write queue meanwhile.
+type WireRig struct {
+	rig *mon.Rig
+	exc *excRec
+}
+
+// NewWireRig builds the rig (mode Sync or Blocking).
+func NewWireRig(e Enc, mode mon.Mode, q int) (r *WireRig, err error) {
+	defer func() {
+		if p := recover(); p != nil {
+			err = fmt.Errorf("%v", p)
+		}
+	}()
+	h := e.Handler()
+	r = &WireRig{exc: &excRec{}}
+	var plan []mon.Step
+	if mode != mon.Sync {
+		plan = []mon.Step{{At: "x1", Occ: 1, Kind: mon.Gate, Until: "go", UntilCount: 1, Timeout: 30 * time.Millisecond}}
+	}
+	r.rig = mon.NewRig(mon.RigOpts{Mode: mode, Queue: q, Handlers: []netty.Handler{h, r.exc}, Plan: plan})
+	return r, nil
+}
+
+// Write sends one message through the encoder.
+func (r *WireRig) Write(msg interface{}) error { return r.rig.Ch.Write(msg) }
+
+// Finish releases the sender, waits for quiescence and returns the wire and the exceptions seen.
+func (r *WireRig) Finish() (wire []byte, exc []error, ok bool) {
+	r.rig.S.Mark("go")
+	ok = r.rig.Ex.WaitOutstanding(1, 10*time.Second)
+	wire = r.rig.T.Wire()
+	r.exc.mu.Lock()
+	exc = r.exc.exc
+	r.exc.mu.Unlock()
+	r.rig.Dispose()
+	return
+}
